@@ -139,7 +139,7 @@ def summarize_san(err):
 
 def write_replay(run, kind, items, extra=None):
     os.makedirs(os.path.join(V, "replays"), exist_ok=True)
-    path = os.path.join(V, "replays", f"{run.prop}-{kind}-seed{run.seed}.json")
+    path = os.path.join(V, "replays", f"{run.prop}-{kind}-seed{run.seed}" + ("-trial" if os.environ.get("VERIF_EVIDENCE_DIR") else "") + ".json")
     body = dict(property=run.prop, kind=kind, seed=run.seed, tier=run.tier,
                 lines=[dict(component=c, line=l, why=w) for c, l, w in items[:50]],
                 replay_cmd=f"python3 tools/check.py --replay {path}")
@@ -193,7 +193,7 @@ def main():
     run.open_classifiers = {k["cls"] for k in known}
     print(f"== {prop} tier={tier} seed={seed}", flush=True)
     os.makedirs(vlib.BUILD, exist_ok=True)
-    work = os.path.join(vlib.BUILD, f"run-{prop}")
+    work = os.path.join(vlib.BUILD, f"run-{prop}" + (f"-trial{os.getpid()}" if os.environ.get("VERIF_EVIDENCE_DIR") else ""))
     os.makedirs(work, exist_ok=True)
 
     # 1. regenerate the translated part of the model from the working tree
@@ -341,8 +341,9 @@ def main():
                   repo_fingerprint=vlib.repo_fingerprint()),
               assumptions=cfg["assumptions"], wall_s=round(wall, 1),
               violations=(1 if violation else 0))
-    os.makedirs(os.path.join(V, "evidence"), exist_ok=True)
-    with open(os.path.join(V, "evidence", f"{prop}.json"), "w") as f:
+    evdir = os.environ.get("VERIF_EVIDENCE_DIR") or os.path.join(V, "evidence")   # seeded-change trials write elsewhere
+    os.makedirs(evdir, exist_ok=True)
+    with open(os.path.join(evdir, f"{prop}.json"), "w") as f:
         json.dump(ev, f, indent=1)
     print(f"  correspondence: {run.lines} lines, {len(run.distinct)} distinct non-trivial, verdicts {run.verdicts}")
     if violation:
